@@ -382,6 +382,14 @@ def structured_histories(cpu):
                                        dict(op="F", fit=0, gen=3)]),
         ("fit with nothing to optimise draws nothing", [N(1), dict(op="F", fit=3, gen=1), P(0, 3, 1)]),
         ("dkw/ks ignore the generator", [N(0), B("dkw", 0, 0, 1, 1), S(5), B("dkw", 0, 0, None, 16), B("ks", 0, 0, 1, 2)]),
+        # generators in EQUAL STATES but different objects: whatever was computed for the first must not leak into the second
+        ("equal generator state, other ld kind first (et, hd)", [N(0), B("et", 2, 0, 1, 1), N(0), B("hd", 2, 0, 2, 1)]),
+        ("equal generator state, other ld kind first (hd, et)", [N(1), B("hd", 4, 0, 1, 1), N(1), B("et", 4, 0, 2, 1)]),
+        ("equal generator state, other confidence first", [N(0), B("et", 2, 1, 1, 1), N(0), B("et", 2, 0, 2, 1)]),
+        ("equal generator state, other sample of the same size first", [N(0), B("hd", 2, 0, 1, 1), N(0), B("hd", 3, 0, 2, 1)]),
+        ("equal generator state via set_seed, other ld kind first", [S(0), B("et", 2, 0, None, 1), S(0), B("hd", 2, 0, None, 1)]),
+        ("equal generator state, other distribution sampled first", [N(1), P(0, 3, 1), N(1), P(2, 3, 2), N(1), P(4, 3, 3)]),
+        ("equal generator state, other fit first", [N(1), dict(op="F", fit=0, gen=1), N(1), dict(op="F", fit=1, gen=2)]),
     ]
 
 
@@ -596,7 +604,7 @@ def run(seed, tier, replay=None):
             else:
                 rep.count(f"further violations keyed {k} (not listed)")
     return rep.result(
-        rule="18 structured histories (F1 explicit/global, set_seed rebinding, n_jobs, overwriting returned arrays, "
+        rule="25 structured histories (incl. pairs of calls on distinct generators in equal states) (F1 explicit/global, set_seed rebinding, n_jobs, overwriting returned arrays, "
              "set_seed(generator), size 0, fits) + random histories of 2-12 calls over seeds {0,1,2,7}, 8 distributions x "
              "sizes {None,3,(2,2),0,1}, 7 samples (n=1..4) x confidences {.5,.9,.25} x methods {dkw,ks,ld_et,ld_hd} x n_jobs "
              "{1,2,16,None}, small fits, overwrites; the observed call repeats an earlier ld call's arguments with "
